@@ -46,6 +46,26 @@ CHECKS = {
    technique='fault enumeration inside seeded simulation: for each sampled workload every crash point k of the recorded sink operation log (image rebuilt from the first k operations, with and without short writes) and every (kind,k,one-shot|sticky) failing sink operation',
    text='Each crash image must be rejected by the readers or serve everything completely and correctly; each injected write/seek/flush failure must not yield Ok(()). The inner loops are exhaustive over k for the sampled workloads; the outer loop is seeded search.',
    note='calm schedule so that the fault-free operation log is reproducible; a panic counts as not-success and is tallied separately'),
+ 'C03': dict(engine='readsim', cat='exploration', ref='DESIGN.md §4 C03',
+   technique='deterministic simulation over query histories: one reader instance (plain, cached, reopened) lives through a seeded sequence of get_interval / partial iteration / get_interval_move / values / zoom / reopen operations on SimRead with short reads and EINTR; oracle = input model after every operation',
+   text='After every operation of a history the answer must equal the overlap/clip oracle computed from the input, whatever was asked before; one workload class has 5200 one-item blocks so that the block cache crosses its 5000-entry reset inside a history.',
+   note='files are produced by a calm bigtools write (schedule dependence is C11); zero-length values excluded (overlap undefined for them); for empty ranges both answers (nothing / zero-length clip) are accepted'),
+ 'C04': dict(engine='readsim', cat='exploration', ref='DESIGN.md §4 C04',
+   technique='deterministic simulation over query histories on bigBed files biased to blocks whose largest end is not the last entry\'s end, small items_per_slot/block_size; must-include/may-include oracle from the input model',
+   text='Every strictly overlapping entry exactly once and in stored order, nothing wholly outside [s,e], touching entries either way; plain, cached and reopened readers, short reads/EINTR, after arbitrary earlier queries.',
+   note='as C03'),
+ 'C05': dict(engine='readsim', cat='exploration', ref='DESIGN.md §4 C05',
+   technique='stratified seeded search over tree shapes (levels 1-4+ x last node full/partial/single, fan-out 2-9, 1-700 blocks, 1-3 chromosomes): independent tree walk + boundary sweep (every block boundary +-1) through the public readers on SimRead',
+   text='The independent decoder walks every index (main and zoom) and checks containment, order, counts and that a linear scan of the leaves is the block list; then every query that starts or ends on a block boundary or one base either side must return exactly what the model says. Stratified sampling, not exhaustive enumeration; the shape classes reached are reported.',
+   note='exhaustive:false - the property\'s wording asks for enumeration, what is delivered is stratified seeded search'),
+ 'C10': dict(engine='readsim', cat='exploration', ref='DESIGN.md §4 C10',
+   technique='deterministic simulation over query histories on files produced by an independent encoder (either byte order, zlib/raw, section types 1/2/3, multi-level chromosome trees, R-tree fan-out/depth/node placement, versions 1-4) read through SimRead with short reads/EINTR',
+   text='Chromosome table, summary, autosql, item count, intervals, per-base values and zoom queries must equal what the encoder was told to encode, through plain, cached and reopened readers and GenericBBIRead; every encoded file first passes the independent decoder (encoder self-test) so that an encoder bug cannot be reported as a reader bug.',
+   note='trusts the encoder/decoder pair (they cross-check each other on every case)'),
+ 'C12': dict(engine='tfbsim', cat='exploration', ref='DESIGN.md §4 C12',
+   technique='deterministic simulation of the staging buffer: (1) seeded call-interleaving simulator over the public API with the real primitives and a fault-injecting destination, (2) shuttle random/PCT schedules over the same source file compiled against shuttle Mutex/Condvar (producer and consumer threads, deadlock detection, replayable schedules)',
+   text='Destination bytes must be exactly the written stream, once, in order, wherever the redirect lands (before the first byte, mid-stream, after the last, never), in-memory and temp-file staging; len() equals bytes written; waiting returns once the producer is done (shuttle reports a lost wake-up as deadlock).',
+   note='AtomicCell is modelled by a shuttle mutex (linearizable swap with a scheduling point); temp files are real'),
 }
 
 checks = []
@@ -87,6 +107,10 @@ manifest = {
  'engines': [
    {'name': 'pipesim', 'path': 'sim/src/pipesim.rs', 'serves_properties': [p for p in ['C01','C02','C06','C07','C08','C09','C11','C13','C14'] if p in CHECKS],
     'kind_free_text': 'real bigtools write pipeline on a simulator-owned current_thread tokio runtime with seeded yield decisions at cfg-gated hook sites; SimSink/SimRead/SimSource seams; worker processes with watchdog'},
+   {'name': 'readsim', 'path': 'sim/src/readsim.rs', 'serves_properties': [p for p in ['C03','C04','C05','C10'] if p in CHECKS],
+    'kind_free_text': 'real bigtools readers living through seeded query histories on SimRead (short reads, EINTR, reopen); files from bigtools itself or from the independent encoder (sim/src/encode.rs)'},
+   {'name': 'tfbsim', 'path': 'sim/src/tfbsim.rs + tfbshuttle/', 'serves_properties': [p for p in ['C12'] if p in CHECKS],
+    'kind_free_text': 'the real tempfilebuffer.rs under a call-interleaving simulator and under shuttle schedulers (separate crate including the source file via #[path])'},
  ],
  'checks': checks,
  'not_applicable': not_applicable,
